@@ -43,6 +43,11 @@ pub assume_specification<T: core::cmp::Ord + core::marker::Destruct> [core::cmp:
 
 pub assume_specification<T> [core::mem::drop::<T>] (x: T);
 
+pub assume_specification<T, P> [core::option::Option::<T>::filter] (o: Option<T>, p: P) -> (r: Option<T>)
+    where P: core::ops::FnOnce(&T,) -> bool + core::marker::Destruct, T: core::marker::Destruct,
+    requires o is Some ==> call_requires(p, (&o->0,)),
+    ensures match o { None => r is None, Some(x) => exists|b: bool| call_ensures(p, (&x,), b) && r == (if b { Some(x) } else { None::<T> }) };
+
 pub assume_specification<T> [<[T]>::split_last_mut] (s: &mut [T]) -> (r: Option<(&mut T, &mut [T])>)
     ensures
         match r {
@@ -213,7 +218,7 @@ pub trait ExAsRef<T: core::marker::PointeeSized>: core::marker::PointeeSized {
 /// std: Vec<u8> and references to AsRef types view as their content
 pub broadcast axiom fn axiom_as_ref_vec(v: &Vec<u8>)
     ensures #[trigger] as_ref_view::<Vec<u8>>(v) == v@;
-pub broadcast axiom fn axiom_as_ref_ref<A>(a: &&A)
+pub broadcast axiom fn axiom_as_ref_ref<A: ?Sized>(a: &&A)
     ensures #[trigger] as_ref_view::<&A>(a) == as_ref_view::<A>(*a);
 pub broadcast axiom fn axiom_as_ref_slice(s: &[u8])
     ensures #[trigger] as_ref_view::<[u8]>(s) == s@;
